@@ -219,7 +219,9 @@ class _GLinalg:
     @staticmethod
     def norm(v):
         if isinstance(v, GVec):
-            return core.sym_sqrt(v.space.ip(v, v))
+            nn = v.space.ip(v, v)
+            core.define(nn.t >= 0)           # axiom of inner-product spaces: <v,v> >= 0
+            return core.sym_sqrt(nn)
         raise Unsupported("norm of %r" % type(v))
 
 
@@ -240,6 +242,22 @@ class _GNP:
     @staticmethod
     def isscalar(x):
         return isinstance(x, (int, float, Sym))
+
+    @staticmethod
+    def abs(x):
+        if isinstance(x, GVec):
+            raise Unsupported("elementwise abs of an abstract vector")
+        return abs(x)
+
+    @staticmethod
+    def amin(x):
+        if isinstance(x, GVec):
+            raise Unsupported("amin of an abstract vector")
+        return x          # scalar step size
+
+    @staticmethod
+    def sqrt(x):
+        return core.sym_sqrt(x)
 
     def __getattr__(self, k):
         if k.startswith("__"):
